@@ -1257,7 +1257,10 @@ def c16_cli(ctx, res):
         _write(os.path.join(d, n), t)
     endings = ["step", "continue", "// note", "step // note", "continue //", "//", "# note", "-- note", "; ", ";", ";;", "step;",
                "si 3 ;", "\"", "'", "\\", " ", "\t", "\r", "quit //", "\x00", "\u00e9", "echo //", "/* c */", "/", "step /", "registers\r",
-               "echo \x1b[2J", "echo \x1b", "echo \x1b[H\x1b[K", "echo a\x1b[1mb\x1b[0m", "echo \x9b2J"]
+               "echo \x1b[2J", "echo \x1b", "echo \x1b[H\x1b[K", "echo a\x1b[1mb\x1b[0m", "echo \x9b2J",
+               # numbers far wider than any register: refused, and the session goes on to its end
+               "print 99999999999", "goto 0x3000000000", "p ^+123456789012", "assembly x123456789abc", "step into 18446744073709551616",
+               "break add 340282366920938463463374607431768211456", "move r0 #-99999999999", "print lbl+99999999999", "b a o7777777777777777"]
     # byte strings that are not UTF-8 (only through standard input; how such a line is refused - an
     # error, or the reader giving up - is not this property's business, that the session ends is)
     raw_endings = [b"echo 5\xa3", b"break\xa0list", b"\x80", b"\xc0\x80", b"echo caf\xe9", b"\xff\xfe", b"step\n\xbf\n", b"echo \xed\xa0\x80",
@@ -1327,9 +1330,88 @@ def c16_cli(ctx, res):
             res.violate("C16/cli/crash", "`lace debug` crashed (exit %s)" % rc, detail)
         else:
             res.cls("l2:session_terminated")
+    c16_input_traps(ctx, res, d)
     res.require(["l2:session_through_real_reader:stdin", "l2:session_through_real_reader:arg", "l2:script_without_final_newline",
-                 "l2:session_terminated", "l2:program:halts", "l2:program:runs_off", "l2:program:jumps_low", "l2:program:to_ffff",
+                 "l2:session_terminated", "l2:input_trap_under_debugger:arg", "l2:input_trap_under_debugger:stdin", "l2:program:halts", "l2:program:runs_off", "l2:program:jumps_low", "l2:program:to_ffff",
                  "l2:program:prints_esc", "l2:script_not_utf8"], "L2")
+
+
+def _blocked_on_itself(pid):
+    """A process with a single thread which sleeps in futex() with its CPU time standing still is
+    waiting for a wake-up that only another thread of the same process could send (lace shares no
+    memory with anybody): a logical verdict, not a deadline. Returns a description or None."""
+    try:
+        tasks = os.listdir("/proc/%d/task" % pid)
+        with open("/proc/%d/syscall" % pid) as f:
+            sc = f.read().split()
+        with open("/proc/%d/stat" % pid) as f:
+            state = f.read().rsplit(") ", 1)[1].split()[0]
+    except (OSError, IndexError):
+        return None
+    if len(tasks) == 1 and sc and sc[0] == "202" and state == "S":
+        return "single thread asleep in futex(%s, op %s)" % (sc[1] if len(sc) > 1 else "?", sc[2] if len(sc) > 2 else "?")
+    return None
+
+
+def c16_input_traps(ctx, res, d):
+    """Programs that read input (GETC, IN, `eval getc`) while the debugger is attached and standard
+    input is a pipe shared by the command reader and the program: the session must come to an end.
+    A session asleep for good on a lock of its own is decided from /proc (one thread, in futex(),
+    CPU time not moving over consecutive samples), never from the wall clock alone."""
+    _write(os.path.join(d, "reads.asm"), "getc\nout\nin\nout\nhalt\n")
+    _write(os.path.join(d, "reads_loop.asm"), "and r1 r1 #0\nadd r1 r1 #3\nlp getc\nout\nadd r1 r1 #-1\nbrp lp\nhalt\n")
+    jobs = [("reads.asm", "arg", "continue", b"ab"), ("reads.asm", "arg", "step;step;step;step;continue", b"ab"),
+            ("reads.asm", "stdin", None, b"continue\nab"), ("reads.asm", "stdin", None, b"step\nastep\nstep\nbcontinue\n"),
+            ("reads.asm", "arg", "eval getc;registers;continue", b"xab"), ("reads.asm", "arg", "step into 4;continue", b"ab\n"),
+            ("reads_loop.asm", "arg", "continue", b"xyz"), ("reads_loop.asm", "arg", "break add lp;continue;continue;continue;continue", b"xyz"),
+            ("reads_loop.asm", "stdin", None, b"continue\nxyz"), ("reads_loop.asm", "arg", "continue", b"x"),
+            ("reads.asm", "arg", "continue", b""), ("reads_loop.asm", "arg", "step into 100", b"xyz")]
+
+    def one(job):
+        pn, via, cmd, data = job
+        args = [common.cli_bin(ctx), "debug", pn, "--minimal"] + (["--command", cmd] if cmd else [])
+        env = dict(common.ENV, NO_COLOR="1", XDG_CACHE_HOME=ctx.scratch)
+        p = subprocess.Popen(args, stdin=subprocess.PIPE, stdout=subprocess.PIPE, stderr=subprocess.PIPE, cwd=d, env=env)
+        try:
+            p.stdin.write(data)
+            p.stdin.close()
+        except OSError:
+            pass
+        asleep, last_ticks, why = 0, None, None
+        t0 = time.time()
+        while p.poll() is None and time.time() - t0 < 120:
+            time.sleep(0.25)
+            b = _blocked_on_itself(p.pid)
+            ticks = common._cpu_ticks(p.pid)
+            if b and ticks is not None and ticks == last_ticks:
+                asleep += 1
+                if asleep >= 8:
+                    why = b
+                    break
+            else:
+                asleep = 0
+            last_ticks = ticks
+        rc = p.poll()
+        if rc is None:
+            p.kill()
+        out = p.stdout.read()[-300:]
+        err = p.stderr.read()[-300:]
+        p.wait()
+        return job, rc, why, out, err
+    for (pn, via, cmd, data), rc, why, out, err in pmap(one, jobs):
+        res.evaluations += 1
+        res.cls("l2:input_trap_under_debugger:" + via)
+        detail = {"program": pn, "command": cmd, "stdin": repr(data), "exit": rc,
+                  "stdout_tail": out.decode("utf-8", "replace"), "stderr_tail": err.decode("utf-8", "replace")}
+        if why:
+            res.violate("C16/cli/blocked-for-good", "`lace debug` on a program that reads input never ends: %s, CPU time not moving (standard input at its end)" % why, detail)
+        elif rc is None:
+            k = "session with input traps exceeded the 120 s wall-clock watchdog (undecided)"
+            res.inconclusive[k] = res.inconclusive.get(k, 0) + 1
+        elif rc == 101 or rc < 0:
+            res.violate("C16/cli/crash", "`lace debug` crashed (exit %s)" % rc, detail)
+        else:
+            res.cls("l2:session_terminated")
 
 
 # ------------------------------------------------------------------ C17 (L2: what the user reads)
